@@ -17,6 +17,17 @@ Theorem C05_expiry_drops_empty_swarms : forall (T : Z) (sp : spec) ih v6 sw,
 Proof. exact expiry_drops_empty_swarms. Qed.
 Print Assumptions C05_expiry_drops_empty_swarms.
 
+(* the stores' own loop - every gc_interval a pass with cutoff (now - peer_lifetime): after any number of passes at wall-clock
+   times g, g1, g2, ... (nothing announced in between) exactly the memberships announced after (the latest of them) - lifetime
+   are left, whatever the interval and the order *)
+Theorem C05_periodic_passes_exact : forall (L : Z) g (gs : list Z) sp ih v6 (pk : list Z),
+  let sp' := periodic_passes L (g :: gs) sp in
+  let latest := fold_left Z.max gs g in
+  seeders (swarm_of sp' ih v6) !! pk = keep_after (latest - L) (seeders (swarm_of sp ih v6) !! pk) /\
+  leechers (swarm_of sp' ih v6) !! pk = keep_after (latest - L) (leechers (swarm_of sp ih v6) !! pk).
+Proof. exact periodic_passes_exact. Qed.
+Print Assumptions C05_periodic_passes_exact.
+
 (* a re-announce restarts the lifetime: the stored time is the current clock *)
 Theorem C05_reannounce_restarts : forall a clock sp, plain_event (a_event a) -> a_left a = 0 ->
   seeders (swarm_of (swarm_interaction spec_if a clock sp) (a_ih a) (a_v6 a)) !! a_key a = Some clock.
